@@ -48,6 +48,9 @@ def generate(seed, tier):
         elif x < 0.9:
             ops.append({'op': 'side', 'depth': rng.choice([1, 1, 2, 3]), 'len': rng.choice([1, 1, 2, 3, 4]),
                         'spec': LC.gen_tx_spec(rng), 'miner': rng.randrange(12), 'peer': rng.randrange(4)})
+        elif x < 0.93:
+            ops.append({'op': 'race', 'spec': LC.gen_tx_spec(rng), 'variant': rng.choice(['rival_mined', 'same_mined']),
+                        'miner': rng.randrange(12)})
         else:
             ops.append({'op': 'bad_block', 'kind': rng.choice(['sig_other_key', 'reward_plus_one', 'wrong_merkle', 'spend_missing']),
                         'a': rng.randrange(1000), 'b': rng.randrange(1000), 'peer': rng.randrange(4)})
@@ -339,6 +342,66 @@ def execute(script):
                         break
                 if res.violations:
                     break
+            elif kind == 'race':
+                # the miner thread installs a new head WHILE the network thread admits a transaction: the other thread is
+                # let in at a seam inside admission (right after the in-chain check returns) if and only if the chain
+                # manager's lock is free at that instant, otherwise it has to wait until admission is over
+                import skepticoin.networking.manager as mg
+                hb = old
+                taken = set().union(*[refs_of(t) for t in ref_pool]) if ref_pool else set()
+                txs, _, _ = sim.build_txs(hb, [op.get('spec', {})], taken)
+                if not txs:
+                    continue
+                tx = txs[0]
+                r0 = sorted(refs_of(tx))[0]
+                v0, pub0 = hb.utxo[r0]
+                if op.get('variant') == 'same_mined':
+                    mined = [tx]
+                else:
+                    mined = [W.make_tx([r0], [(v0, W.key(4))], [W.key_by_pub(pub0)])]
+                ts = min(hb.ts + 1, w.node_clock() + 10)
+                if ts <= hb.ts:
+                    continue
+                blk = W.mine_honest(W.view_at(sim.cs, hb.id), mined, W.key(op.get('miner', 0) % 12), ts)
+                cm = w.cm
+                ran = {'done': False, 'nested': False}
+
+                def other_thread():
+                    if ran['done']:
+                        return
+                    ran['done'] = True
+                    cs2 = cm.coinstate.add_block(blk, w.node_clock())
+                    cm.set_coinstate(cs2)
+
+                orig_v = mg.validate_non_coinbase_transaction_in_coinstate
+
+                def seam(*a, **kw):
+                    r = orig_v(*a, **kw)
+                    if not ran['done'] and not cm.lock.locked():
+                        ran['nested'] = True
+                        other_thread()
+                    return r
+                mg.validate_non_coinbase_transaction_in_coinstate = seam
+                w.k.current = node
+                import skepticoin.blockstore as bs
+                bs.DefaultBlockStore.instance = node.store
+                try:
+                    admitted = cm.add_transaction_to_pool(tx)
+                finally:
+                    mg.validate_non_coinbase_transaction_in_coinstate = orig_v
+                try:
+                    other_thread()          # if it had to wait for the lock it runs now
+                finally:
+                    w.k.current = None
+                res.bump('races')
+                if ran['nested']:
+                    res.bump('probe:other_thread_entered_during_admission')
+                if not expect_block_accepted(blk):
+                    break
+                # reference: whatever the interleaving, the transaction is not valid at the new head
+                ref_pool = [t for t in ref_pool if valid_at(t, head())]
+                if not check_pool('after a head change racing with an admission'):
+                    break
             elif kind == 'bad_block':
                 made = None
                 try:
@@ -374,5 +437,5 @@ def describe():
                        'stub': ['TCP, selector, clock, randomness', 'Bots as peers', 'scrypt stand-in']},
         'assumptions': ['order inside the pool is not compared', 'a submission whose connection the node closed carries no admission expectation'],
         'expected_probes': ['admitted', 'refused', 'probe:head_changed', 'probe:evicted_on_head_change', 'probe:survived_head_change',
-                            'probe:pooled_transactions_mined', 'probe:reorganisation', 'probe:rejected_block_between'],
+                            'probe:pooled_transactions_mined', 'probe:reorganisation', 'probe:rejected_block_between', 'races'],
     }
